@@ -62,6 +62,15 @@ var tokenValues = map[string]any{
 	"l:empty":   []interface{}{},
 	"l:mixed":   []interface{}{int64(1), "a", nil, true, 2.5, int32(3)},
 	"l:nested":  []interface{}{[]interface{}{int64(1)}, map[string]interface{}{"a": "b"}, ""},
+	"l:long":    longList(300), // more elements than one byte of index counts
+}
+
+func longList(n int) []interface{} {
+	out := make([]interface{}, n)
+	for i := range out {
+		out[i] = int64(i)
+	}
+	return out
 }
 
 func init() {
